@@ -185,10 +185,10 @@ def run(ctx):
             real_decode(Probe, kinds, data)
         except UnicodeDecodeError:
             pass
-        if probe["max"] > 65536 or (probe["max"] > 4096 and rng.random() < 0.9):
+        if probe["max"] > 8192 or (probe["max"] > 2048 and rng.random() < 0.8):
             ctx.dist("skipped:huge-zero-pad")
             continue
-        if probe["max"] > 4096:
+        if probe["max"] > 2048:
             ctx.dist("malformed:huge-zero-pad")
         dec_reqs.append("dec %s %s" % (kinds, hx(data)))
         dec_cases.append((kinds, data))
